@@ -21,7 +21,8 @@ MODES = ('indiv', 'pop', 'popcov')
 
 def _compute(tier, seed):
     runs, recs = [], []
-    for cfg in ('Controller_single.cfg', 'Controller_%s.cfg' % tier):
+    # (Controller_unbalanced.cfg: one individual has no base measurement of the first output)
+    for cfg in ('Controller_single.cfg', 'Controller_%s.cfg' % tier, 'Controller_unbalanced.cfg'):
         r = tlc.run('Controller', cfg)
         runs.append(r.summary())
         recs += r.records
